@@ -1,7 +1,7 @@
 (* C15 non-vacuity: concrete inputs meeting the hypotheses of the theorems in
    Props.v, and concrete instances of the abstract codings / primitives that
    satisfy the section hypotheses (so the hypotheses are consistent). *)
-From CJ Require Import Common.Base Common.BaseProofs C15.Model C15.Proofs C15.ModelName C15.ProofsName C15.ModelObf C15.ProofsObf C15.ModelAny C15.ProofsAny C15.ModelDns C15.ProofsDns C15.ModelB32 C15.ModelExch C15.ProofsExch C15.Run.
+From CJ Require Import Common.Base Common.BaseProofs C15.Model C15.Proofs C15.ModelName C15.ProofsName C15.ModelObf C15.ProofsObf C15.ModelAny C15.ProofsAny C15.ModelDns C15.ProofsDns C15.ModelB32 C15.ModelExch C15.ProofsExch C15.ModelPb C15.ProofsPb C15.Run.
 From Coq Require Import Lia ZifyN ZifyNat ZifyBool.
 Ltac Zify.zify_post_hook ::= Z.div_mod_to_equations.
 
@@ -193,3 +193,29 @@ Example ex_exchange_oversize :
 Proof.
   do 2 eexists. split; [vm_compute; reflexivity|]. eexists. split; [vm_compute; reflexivity|]. split; [vm_compute; discriminate|vm_compute; reflexivity].
 Qed.
+
+(* ---- protobuf codec ---- *)
+Definition ex_prefix : prefix_tp :=
+  {| p_id := Some (-3)%Z; p_prefix := Some []; p_flush := Some 7%Z; p_rand := Some true; p_unk := [(21, WVarint 1); (2, WVarint 9)] |}.
+Lemma ex_prefix_wf : prefix_wf ex_prefix.
+Proof.
+  unfold prefix_wf, ex_prefix, int32_ok, two64. cbn. repeat split; try lia; try reflexivity;
+    repeat constructor; cbn; unfold max_fnum, two64; lia.
+Qed.
+Example ex_prefix_bytes : marshal_prefix ex_prefix = unhex "08fdffffffffffffffff01120018076801a801011009".
+Proof. vm_compute. reflexivity. Qed.
+Example ex_prefix_rt : unmarshal_prefix (marshal_prefix ex_prefix) = Ok ex_prefix.
+Proof. vm_compute. reflexivity. Qed.
+Example ex_station_unpack : station_unpack (client_pack_nourl (MPrefix ex_prefix)) 1 = Ok (Some (MPrefix ex_prefix)).
+Proof. vm_compute. reflexivity. Qed.
+(* the boundary of the URL-less packing: there is no type check, so the same bytes unpack without error into another
+   parameter type - here a PrefixTransportParams read as DTLSTransportParams: field 3 (custom_flush_policy = 7) becomes
+   randomize_dst_port = true, the other fields are kept as unknown fields *)
+Example ex_cross_type :
+  station_unpack (client_pack_nourl (MPrefix ex_prefix)) 2 =
+  Ok (Some (MDtls {| d_src4 := None; d_src6 := None; d_rand := Some true; d_unordered := None;
+                     d_unk := [(1, WVarint 18446744073709551613); (13, WVarint 1); (21, WVarint 1)] |}))
+  \/ exists m, station_unpack (client_pack_nourl (MPrefix ex_prefix)) 2 = Ok (Some (MDtls m)).
+Proof. right. eexists. vm_compute. reflexivity. Qed.
+Example ex_varint_overflow : varint_dec (repeat 255 9 ++ [2]) = None /\ varint_dec (repeat 255 9 ++ [1]) = Some (18446744073709551615, []).
+Proof. split; vm_compute; reflexivity. Qed.
